@@ -66,6 +66,10 @@ pub enum CKind {
     VTwi,
     VCaps,
     WlToggle,
+    /// whitelist membership of the campaign's trader set explicitly
+    WlSet(bool),
+    /// holding cap and open-interest cap LOWERED below what the trader / the engine currently holds
+    VCapBelow,
     /// back to the deployed values (step 0..=5)
     Restore(u64),
 }
@@ -404,7 +408,9 @@ fn gen_open(w: &World, r: &mut Rng, vis: &[VInfo], ps: &[PosInfo]) -> Draft {
         70..=73 => d - 1,
         74..=79 => d * 5 / 2,
         80..=89 => maxlev,
-        90..=93 => maxlev + 1,
+        90..=91 => maxlev + 1,
+        // a fractional leverage between the bound and the next whole number
+        92..=93 => maxlev + d / 2,
         _ => d + r.below128(19 * d),
     };
     if lev > maxlev && r.chance(92, 100) {
@@ -1210,6 +1216,26 @@ fn config_msg(w: &World, r: &mut Rng, v: &VInfo, kind: CKind, legit: bool, trade
             }
             draft(who(r, own), m)
         }
+        CKind::WlSet(on) => draft(w.pauser(), if on { Msg::WlAdd { a: trader } } else { Msg::WlRm { a: trader } }),
+        CKind::VCapBelow => {
+            let own = w.vamm_owner(&v.addr);
+            let size = w.positions().iter().find(|p| p.v == v.id && p.t == trader).map(|p| p.size).unwrap_or(0);
+            let oi = w.q::<margined_perp::margined_engine::StateResponse, _>(&w.engine, &margined_perp::margined_engine::QueryMsg::State {})
+                .map(|s| s.open_interest_notional.u128())
+                .unwrap_or(0);
+            let mut m = vcfg0(v.id);
+            if let Msg::VCfg { ucap, uoic, .. } = &mut m {
+                match r.below(3) {
+                    0 => *ucap = Some((size / 2).max(1)),
+                    1 => *uoic = Some((oi / 2).max(1)),
+                    _ => {
+                        *ucap = Some((size / 2).max(1));
+                        *uoic = Some((oi / 2).max(1));
+                    }
+                }
+            }
+            draft(own, m)
+        }
         CKind::WlToggle => {
             let wl: Vec<u64> = w
                 .q::<cw_controllers::HooksResponse, _>(&w.engine, &margined_perp::margined_engine::QueryMsg::GetWhitelist {})
@@ -1313,6 +1339,19 @@ fn start_config(w: &World, r: &mut Rng, g: &mut GenCtx, vis: &[VInfo], ps: &[Pos
                 let op = if hold { TOp::OpenToHoldCap(k) } else { TOp::OpenToOiCap(k) };
                 g.plan.push_back(Plan::TraderOp { vi, who: Who::Id(trader), op, block: Blk::Free });
             }
+        }
+        if matches!(kind, CKind::VCaps) {
+            // above a cap by exemption or by a later change of the cap, then no longer exempt: an increase must be refused
+            //  (a) whitelisted, one unit above the holding cap (allowed), removed from the whitelist, increase
+            g.plan.push_back(Plan::Config { vi, kind: CKind::WlSet(true), legit: true, trader });
+            g.plan.push_back(Plan::TraderOp { vi, who: Who::Id(trader), op: TOp::OpenToHoldCap(1), block: Blk::Free });
+            g.plan.push_back(Plan::TraderOp { vi, who: Who::Id(trader), op: TOp::OpenSame, block: Blk::Free });
+            g.plan.push_back(Plan::Config { vi, kind: CKind::WlSet(false), legit: true, trader });
+            g.plan.push_back(Plan::TraderOp { vi, who: Who::Id(trader), op: TOp::OpenSame, block: Blk::Free });
+            //  (b) caps lowered below current usage, increase
+            g.plan.push_back(Plan::Config { vi, kind: CKind::VCapBelow, legit: true, trader });
+            g.plan.push_back(Plan::TraderOp { vi, who: Who::Id(trader), op: TOp::OpenSame, block: Blk::Free });
+            g.plan.push_back(Plan::TraderOp { vi, who: Who::Id(trader), op: TOp::Reduce, block: Blk::Free });
         }
         if matches!(kind, CKind::VCaps | CKind::WlToggle) || r.chance(1, 5) {
             g.plan.push_back(Plan::TraderOp { vi, who: Who::Id(trader), op: TOp::OpenSame, block: Blk::Free });
@@ -1566,9 +1605,9 @@ fn gen_admin(w: &World, r: &mut Rng, vis: &[VInfo], mode: Mode) -> Draft {
             0 => d,
             1 => d + 1,
             2 => 0,
-            3 => d / 20,
+            3 => d / 20 + 1,
             4 => d / 10,
-            5 => d / 40,
+            5 => d / 40 + 1,
             6 => d / 100,
             _ => r.below128(d / 4 + 1),
         }
@@ -1588,7 +1627,7 @@ fn gen_admin(w: &World, r: &mut Rng, vis: &[VInfo], mode: Mode) -> Draft {
                 1 => m.3 = Some(ratio(r)),
                 2 => m.4 = Some(ratio(r)),
                 3 => m.5 = Some(*r.pick(&[0, d / 4, d / 2, d, d + 1])),
-                4 => m.6 = Some(*r.pick(&[0, d / 80, d / 40, d / 20, d, d + 1])),
+                4 => m.6 = Some(*r.pick(&[0, d / 80, d / 40 + 1, d / 20 - 1, d, d + 1])),
                 5 => {
                     m.3 = Some(ratio(r));
                     m.4 = Some(ratio(r));
@@ -1715,7 +1754,15 @@ fn gen_admin(w: &World, r: &mut Rng, vis: &[VInfo], mode: Mode) -> Draft {
             let tok = if mode == Mode::Twin { 5 } else if w.token.is_some() { *r.pick(&[5u64, 5, 5, 0]) } else { 0 };
             let bal = w.balance(w.feepool.as_str());
             let amt = *r.pick(&[0, 1, bal, bal + 1, bal / 2, d]);
-            draft(who(r, w.fp_owner()), Msg::FpSend { tok, amt, to: *r.pick(&[OWNER, NEWOWNER, 101, STRANGER, 0]) })
+            let mut to = *r.pick(&[OWNER, NEWOWNER, 101, STRANGER, 0]);
+            let mut amt = amt;
+            let snd = who(r, w.fp_owner());
+            if snd != w.fp_owner() && r.chance(1, 2) {
+                // role probe: a non-holder's call whose payload names the role holder and is otherwise perfectly valid
+                to = w.fp_owner();
+                amt = if bal > 1 { *r.pick(&[1, bal / 2, bal]) } else { bal.max(1) };
+            }
+            draft(snd, Msg::FpSend { tok, amt, to })
         }
         94..=96 => draft(who(r, w.fp_owner()), Msg::FpOwner { new: some_account(r) }),
         _ => draft(who(r, w.feed_owner()), Msg::FdOwner { new: some_account(r) }),
